@@ -253,13 +253,17 @@ func (p *Prog) wgDesc(f *Func, call *ast.CallExpr) string {
 		return ""
 	}
 	info := f.Pkg.TypesInfo
-	if fv := SelField(info, se.X); fv != nil {
+	recv := ast.Unparen(se.X)
+	if u, ok := recv.(*ast.UnaryExpr); ok && u.Op == token.AND {
+		recv = ast.Unparen(u.X) // (&wg).Done()
+	}
+	if fv := SelField(info, recv); fv != nil {
 		return p.FieldName(fv)
 	}
-	if v, ok := identObj(info, se.X).(*types.Var); ok {
+	if v, ok := identObj(info, recv).(*types.Var); ok {
 		return fmt.Sprintf("local %s#%d", v.Name(), v.Pos())
 	}
-	return exprStr(se.X)
+	return exprStr(recv)
 }
 
 // doneIn reports whether function body b calls X.Done() for the WaitGroup
@@ -418,6 +422,29 @@ func ruleWG(c *Ctx) {
 				}
 				return ""
 			}
+			// a local of Start bound once to a pipe and used by the goroutine
+			pipeLocal := func(fn *Func) string {
+				out := ""
+				ast.Inspect(fn.Body, func(x ast.Node) bool {
+					id, ok := x.(*ast.Ident)
+					if !ok {
+						return true
+					}
+					v, ok := fn.Pkg.TypesInfo.Uses[id].(*types.Var)
+					if !ok || v.IsField() {
+						return true
+					}
+					if d := p.singleDef(start, v); d != nil {
+						if dc, ok := ast.Unparen(d).(*ast.CallExpr); ok {
+							if k := isPipe(start, dc); k != "" {
+								out = k
+							}
+						}
+					}
+					return true
+				})
+				return out
+			}
 			for _, call := range callsIn(cs.Node.Ast) {
 				if k := isPipe(start, call); k != "" {
 					pipe = k
@@ -432,6 +459,9 @@ func ruleWG(c *Ctx) {
 			for _, b := range append([]*Func{}, bodies...) {
 				if b.Lit == nil {
 					continue
+				}
+				if k := pipeLocal(b); k != "" {
+					pipe = k
 				}
 				for _, call := range b.Calls() {
 					if k := isPipe(b, call); k != "" {
@@ -761,7 +791,13 @@ func ruleKill(c *Ctx) {
 		return false
 	}
 	seen := g.Reach([]*Node{g.Entry}, isKill, cut)
-	if _, bad := seen[g.Exit]; bad {
+	_, bad := seen[g.Exit]
+	if bad {
+		// confirm with feasible reachability: the outcome of the wait may only
+		// have been recorded in a flag that is tested afterwards
+		bad = p.FeasibleReach(f, []*Node{g.Entry}, isKill, cut)[g.Exit]
+	}
+	if bad {
 		c.R.Violate("R-EXIT/kill", p.Pos(f.Node()), f.Name, "kill-or-exited on every exit",
 			"Kill can return without calling runner.Kill although the process was not observed to have exited (not the no-runner early return, not the doneCtx arm)", p.PathTo(seen, g.Exit))
 	} else {
